@@ -172,6 +172,7 @@ theorem patPropose_spec {cfg : PatCfg} {sp : Space} {f : Pos → Bool} (hgeo : c
     | mutant _ => simp at h
     | parents _ => simp at h
     | inits _ => simp at h
+    | vec _ => simp at h
 
 /-- the window pick keeps groundedness -/
 theorem grounded_patWindow {log : Log} {t : Tracker} (g : Grounded log t) (n : Nat) : Grounded log (patWindow n t) := by
